@@ -81,14 +81,15 @@ TABLE = [
 
 def run(check):
     tier = check.tier
-    types = ['double'] if tier == 'quick' else ['double', 'float', 'long double']
+    types = ['double', 'float', 'long double']
     check.checker_cmd = 'clang++ -ast-dump=json | phqv lower | phqv symex (REAL) -> z3 -T:120 qfnra-nlsat'
     check.assume('REAL: machine arithmetic treated as exact real arithmetic ("to a few ulps" is not machine-checked; bodies are a handful of operations)')
     check.assume('formula table transcribed from the property statement (spec in phqv/props/c18.py TABLE); all scalar inputs positive, tensors arbitrary')
     check.assume('libm sqrt contract r >= 0 and r*r == x')
     tasks = []
+    loaded = dict(zip(types, pmap(lambda T_: Quant(check, types=(T_,), other_types=(), conv=False, hash_=False), types)))
     for T in types:
-        Q = Quant(check, types=(T,), other_types=(), conv=False, hash_=False)
+        Q = loaded[T]
         low = Q.low
         tag = T.replace(' ', '_')
         for row in TABLE:
@@ -127,6 +128,12 @@ def run(check):
                 check.under_contract(f)
             except Unsupported as e:
                 check.error('%s: %s' % (name, e))
+        # ---- every constructor that rearranges one of the scalar definitions (solves it for another of its quantities)
+        try:
+            tasks += rearrangement_tasks(check, Q, low, T, tag)
+            tasks += family_tasks(check, Q, low, T, tag)
+        except Unsupported as e:
+            check.error('C18 rearrangements: %s' % e)
     check.extra['formulas'] = len(TABLE)
     check.log('%d REAL obligations' % len(tasks))
     for t, ob in zip(tasks, pmap(lambda t: t.run(), tasks)):
@@ -135,7 +142,176 @@ def run(check):
             adjudicate(check, t, ob)
 
 
+FAMILIES = [
+    ('extensive heat capacities: gamma = Cp/Cv, R = Cp - Cv',
+     {'IsobaricHeatCapacity': lambda cp, cv: cp, 'IsochoricHeatCapacity': lambda cp, cv: cv,
+      'GasConstant': lambda cp, cv: mk('-', cp, cv), 'HeatCapacityRatio': lambda cp, cv: d(cp, cv)}),
+    ('specific heat capacities: gamma = cp/cv, R = cp - cv',
+     {'SpecificIsobaricHeatCapacity': lambda cp, cv: cp, 'SpecificIsochoricHeatCapacity': lambda cp, cv: cv,
+      'SpecificGasConstant': lambda cp, cv: mk('-', cp, cv), 'HeatCapacityRatio': lambda cp, cv: d(cp, cv)}),
+]
+
+
+def scalar_ctors(Q, low, T, cls):
+    out = []
+    canon = Q.canon(cls, T)
+    if canon not in low.records:
+        return out
+    for f in Q.methods(canon):
+        if f.kind != 'ctor' or len(f.params) < 2:
+            continue
+        ts = [template_of(low, pt) for _, pt in f.params[1:]]
+        if any(t is None for t in ts) or (len(ts) == 1 and ts[0] == cls):
+            continue
+        if any(len(replay.leaf_types(low, vt(pt))) != 1 for _, pt in f.params[1:]):
+            continue
+        out.append((ts, f))
+    return out
+
+
+def family_tasks(check, Q, low, T, tag):
+    """Two definitions tie four quantities together; every constructor among them must be consistent with both."""
+    out = []
+    n = 0
+    for title, fam in FAMILIES:
+        for cls in fam:
+            for ts, f in scalar_ctors(Q, low, T, cls):
+                if not all(t in fam and t != cls for t in ts) or len(set(ts)) != len(ts):
+                    continue
+                S = SymEx(low)
+                cp, cv = S.sym('cp'), S.sym('cv')
+                argl = {pn: [fam[t](cp, cv)] for pn, t in zip(param_names(f), ts)}
+                got, sc = call_with(low, f, S, argl)
+                goal = cmp('==', got[0], fam[cls](cp, cv))
+                ass = [cmp('<', num(0), cv), cmp('<', cv, cp)] + [c for c, _ in S.domain]
+                t = RealTask(check, 'C18.family.%s.%s.real.%s' % (cls, '+'.join(ts), tag), S, goal, assumes=ass, function=f.qualname, loc=Q.loc(f), timeout=120)
+                t.ob.text = '%s: %s(%s) is consistent with both definitions for all cp > cv > 0' % (title, cls, ', '.join(ts))
+                names = param_names(f)
+                formula = (lambda fam=fam, ts=ts, cls=cls: None)
+                t.meta = ('family', f, fam, ts, cls, T, low)
+                out.append(t)
+                check.under_contract(f)
+                n += 1
+    if n < 16:
+        check.error('must-fire: expected >= 16 heat-capacity family constructors, found %d' % n)
+    return out
+
+
+def rearrangement_tasks(check, Q, low, T, tag):
+    out = []
+    seen = set()
+    for row in TABLE:
+        title, kind, cls, member, argt, formula, mode = row
+        if kind != 'ctor':
+            continue
+        try:
+            f0 = find_ctor(Q, cls, T, argt)
+        except Unsupported:
+            continue
+        if any(len(replay.leaf_types(low, vt(pt))) != 1 for _, pt in f0.params[1:]) or len(replay.leaf_types(low, ('rec', f0.record))) != 1:
+            continue
+        if len(set(argt)) != len(argt):
+            continue
+        for yi, Y in enumerate(argt):
+            need = sorted(argt[:yi] + argt[yi + 1:] + [cls])
+            for ts, g in scalar_ctors(Q, low, T, Y):
+                if sorted(ts) != need:
+                    continue
+                key = (title, g.cname)
+                if key in seen:
+                    continue
+                seen.add(key)
+                S = SymEx(low)
+                syms = [S.sym('in%d' % i) for i in range(len(argt))]
+                want = formula([[x] for x in syms])[0]
+                ass = [cmp('<', num(0), x) for x in syms]
+                if mode == 'sqrt':
+                    xv = S.sym('x')
+                    ass += [cmp('<', num(0), xv), cmp('==', mk('*', xv, xv), want)]
+                else:
+                    xv = want
+                pool = {t_: syms[i] for i, t_ in enumerate(argt)}
+                argl = {}
+                for pn, t_ in zip(param_names(g), ts):
+                    argl[pn] = [xv if t_ == cls else pool[t_]]
+                got, sc = call_with(low, g, S, argl)
+                goal = cmp('==', got[0], syms[yi])
+                # the rearranged relation is only required where it is defined (for sums: the difference it takes is positive)
+                ass += [c for c, _ in S.domain]
+                t = RealTask(check, 'C18.rearranged.%s.%s.from.%s.real.%s' % (Y, '+'.join(ts), re.sub(r'\W+', '_', cls), tag), S, goal, assumes=ass,
+                             function=g.qualname, loc=Q.loc(g), timeout=120)
+                t.ob.text = '%s, solved for %s: %s(%s) returns the %s the definition was evaluated with, all inputs > 0' % (title, Y, Y, ', '.join(ts), Y)
+                t.meta = ('rearranged', g, formula, (argt, yi, cls, ts, mode), None, T, low)
+                out.append(t)
+                check.under_contract(g)
+    check.extra['rearranged_constructors'] = len(out)
+    return out
+
+
+def adjudicate_derived(check, t, ob):
+    kind, g = t.meta[0], t.meta[1]
+    T, low = t.meta[5], t.meta[6]
+    rec = {'property': 'C18', 'obligation': ob.name, 'function': ob.function, 'source': ob.loc, 'verifier_output': ob.detail,
+           'solver_model': {k: str(v) for k, v in (ob.cex or {}).items()} if isinstance(ob.cex, dict) else None, 'text': ob.text}
+    confirmed = False
+    try:
+        model = ob.cex if isinstance(ob.cex, dict) else {}
+        cands = []
+        if kind == 'family':
+            fam, ts, cls = t.meta[2], t.meta[3], t.meta[4]
+            pairs = [(Fraction(7, 2), Fraction(5, 2)), (Fraction(1005), Fraction(718)), (Fraction(9, 4), Fraction(1, 4))]
+            if model.get('cp') is not None and model.get('cv') is not None:
+                pairs.insert(0, (Fraction(model['cp']), Fraction(model['cv'])))
+            def ev(term_fn, cp, cv):
+                tm = term_fn(num(cp), num(cv))
+                return tm[1] if is_num(tm) else None
+            for cp, cv in pairs:
+                inputs = {pn: [ev(fam[t_], cp, cv)] for pn, t_ in zip(param_names(g), ts)}
+                cands.append((inputs, ev(fam[cls], cp, cv)))
+        else:
+            formula, (argt, yi, cls, ts, mode) = t.meta[2], t.meta[3]
+            sets = [[Fraction(3, 2), Fraction(5, 4), Fraction(7, 8), Fraction(9, 2)], [Fraction(40), Fraction(3), Fraction(1, 4), Fraction(6)]]
+            if all(model.get('in%d' % i) is not None for i in range(len(argt))):
+                sets.insert(0, [Fraction(model['in%d' % i]) for i in range(len(argt))])
+            for vs in sets:
+                vs = vs[:len(argt)]
+                w = formula([[num(x)] for x in vs])[0]
+                if not is_num(w):
+                    continue
+                x = w[1]
+                if mode == 'sqrt':
+                    r = Fraction(math.isqrt(x.numerator * x.denominator), x.denominator) if x >= 0 else None
+                    if r is None or r * r != x:
+                        x = Fraction(math.sqrt(float(x)))     # inexact: tolerance below covers it
+                    else:
+                        x = r
+                pool = dict(zip(argt, vs))
+                inputs = {pn: [x if t_ == cls else pool[t_]] for pn, t_ in zip(param_names(g), ts)}
+                cands.append((inputs, vs[yi]))
+        nc = replay.NativeCall(low, g)
+        for inputs, want in cands:
+            if want is None or any(v[0] is None for v in inputs.values()):
+                continue
+            cpp = nc.program(inputs, includes=default_includes(low, g))
+            r, err = replay.build_and_run(cpp, os.path.join(check.work, 'replay'), 'r_' + re.sub(r'\W+', '_', ob.name)[:150])
+            if err:
+                rec['replay_error'] = err[:600]
+                break
+            got = [float(x) for x in replay.parse_out(r.stdout).get('RET', [])]
+            if got and abs(got[0] - float(want)) > 1e-7 * max(1.0, abs(float(want))):
+                rec.update({'cpp': cpp, 'native_output': r.stdout, 'inputs': {k2: [str(x) for x in v] for k2, v in inputs.items()},
+                            'mismatch': ['the library returns %r, the definition requires %r' % (got[0], float(want))]})
+                confirmed = True
+                break
+    except Exception as e:
+        rec['replay_error'] = '%s: %s' % (type(e).__name__, e)
+    rec['confirmed'] = confirmed
+    check.violations.append((ob, write_replay(check, ob, rec), '' if confirmed else 'no-failing-input-found'))
+
+
 def adjudicate(check, t, ob):
+    if t.meta and t.meta[0] in ('family', 'rearranged'):
+        return adjudicate_derived(check, t, ob)
     f, names, formula, mode, T, low = t.meta
     rec = {'property': 'C18', 'obligation': ob.name, 'function': ob.function, 'source': ob.loc, 'verifier_output': ob.detail,
            'solver_model': {k: str(v) for k, v in (ob.cex or {}).items()} if isinstance(ob.cex, dict) else None, 'text': ob.text}
